@@ -347,6 +347,14 @@ func (e *Engine) globalInit(g *ssa.Global, elem types.Type) (Value, bool) {
 		*c = &Native{Kind: "osfile", Data: g.Name()}
 		return Ptr{P: c}, true // writes to it are modelled as no-ops (fmt.Fprint*)
 	}
+	if g.Pkg != nil && g.Pkg.Pkg.Path() == "encoding/base64" {
+		kinds := map[string]string{"StdEncoding": "base64", "RawStdEncoding": "base64raw", "URLEncoding": "base64url", "RawURLEncoding": "base64urlraw"}
+		if k, ok := kinds[g.Name()]; ok {
+			c := new(Value)
+			*c = &Native{Kind: "base64enc", Data: k}
+			return Ptr{P: c}, true
+		}
+	}
 	if g.Pkg != nil && g.Pkg.Pkg.Path() == "net/http" && (g.Name() == "DefaultServeMux" || g.Name() == "DefaultClient") {
 		if p, ok := elem.(*types.Pointer); ok {
 			c := new(Value)
